@@ -95,6 +95,11 @@ func (g *gen) complexExpr() cexpr {
 	switch form {
 	case 16, 17: // near-variant type assertions
 		v := typeVariants[g.intn(0, len(typeVariants)-1, "typevariant")]
+		// recorded finding: astutil.Equal dereferences the missing tag when only one of two fields has
+		// one; excluded by not pairing a tagged with an untagged field
+		for i := 0; strings.Contains(v[0], "`") != strings.Contains(v[1], "`") && !g.include("astutil-equal-field-tag"); i++ {
+			v = typeVariants[(i*7+3)%len(typeVariants)]
+		}
 		wrap := pick(g, "variantwrap", "v.(%s)", "v.(%s)", "(v.(%s))", "v.([]%s)[0]", "*v.(*%s)", "v.(map[string]%s)[\"k\"]", "v.([1]%s)[0]")
 		if strings.Contains(v[0], "...") {
 			wrap = "*(v.(*%s))"
@@ -214,7 +219,13 @@ func (g *gen) complexExpr() cexpr {
 		g.dep(id)
 		g.n++
 		name := "gid" + fmt.Sprint(g.n)
-		return cexpr{E: pick(g, "ginst", name+"[int, string](x, \"a\")", name+"(x, \"a\")", name+"[int](x, 1.5)", name+"[int, func()](x, nil)"), T: tInt, Params: []string{"x int"}, Form: "generic_call"}
+		insts := []string{name + "[int, string](x, \"a\")", name + "(x, \"a\")", name + "[int](x, 1.5)", name + "[int, []int](x, nil)"}
+		// recorded finding: astutil.CopyExpr writes into the index list of the expression it copies and
+		// leaves a nil there when an index is a function type; excluded by not instantiating with one
+		if g.include("copyexpr-indexlist-nil-index") {
+			insts = append(insts, name+"[int, func()](x, nil)", name+"[int, func()](x, nil)", name+"[int, interface{ M() }](x, nil)")
+		}
+		return cexpr{E: pick(g, "ginst", insts...), T: tInt, Params: []string{"x int"}, Form: "generic_call"}
 	case 11: // method value / expression call
 		t := g.namedType(func(t *Ty) bool {
 			return len(t.Methods) > 0 && t.Under != nil && t.Under.K != KIface && !t.Generic && firstCmpMethod(t) != nil
